@@ -220,12 +220,12 @@ func cmdCheck(args []string) int {
 			fmt.Fprintf(os.Stderr, "   violation: %s at %s\n", v.Msg, v.Pos)
 			exit = 1
 		}
-		if !*noNative && len(r.Samples) > 0 {
-			ok, bad, msgs := nativeSelfTest(*repo, *hdir, &cc, r.Entry, r.Samples, thorough)
-			selfOK += ok
-			selfBad += bad
-			selfMsgs = append(selfMsgs, msgs...)
-		}
+	}
+	if !*noNative {
+		ok, bad, msgs := nativeSelfTest(*repo, *hdir, &cc, results, thorough)
+		selfOK += ok
+		selfBad += bad
+		selfMsgs = append(selfMsgs, msgs...)
 	}
 	if selfBad > 0 {
 		inconclusive = append(inconclusive, fmt.Sprintf("translator self-test: %d of %d native runs disagree with the symbolic encoding: %s", selfBad, selfOK+selfBad, strings.Join(selfMsgs, " | ")))
@@ -303,25 +303,29 @@ func pkgDirOf(entry string) (pkgPath, rel string) {
 }
 
 // writeReplayDir materialises a self-contained replay: models, test file, overlay.json, run.sh.
-func writeReplayDir(repo, hdir string, cc *CheckCfg, entry string, models [][]byte, rdir string) (string, error) {
+// models maps file names "model_<Entry>__<n>.json" to contents; entries lists the harness functions
+// (all in the same package) the generated test can dispatch to.
+func writeReplayDir(repo, hdir string, cc *CheckCfg, entries []string, models map[string][]byte, rdir string) (string, error) {
 	os.RemoveAll(rdir)
 	if err := os.MkdirAll(rdir, 0o755); err != nil {
 		return "", err
 	}
-	pkgPath, rel := pkgDirOf(entry)
-	fn := shortName(entry)
-	// package name from the harness file
+	_, rel := pkgDirOf(entries[0])
 	pkgName := ""
 	overlay := map[string]string{}
 	for virt, real := range cc.Overlay {
 		src := filepath.Join(hdir, real)
-		dst := filepath.Join(rdir, strings.ReplaceAll(virt, "/", "__"))
+		dst := filepath.Join(rdir, strings.ReplaceAll(strings.TrimPrefix(virt, "/"), "/", "__"))
 		data, err := os.ReadFile(src)
 		if err != nil {
 			return "", err
 		}
 		os.WriteFile(dst, data, 0o644)
-		overlay[filepath.Join(repo, virt)] = dst
+		if filepath.IsAbs(virt) {
+			overlay[virt] = dst
+		} else {
+			overlay[filepath.Join(repo, virt)] = dst
+		}
 		if filepath.Dir(virt) == rel && pkgName == "" {
 			for _, l := range strings.Split(string(data), "\n") {
 				if strings.HasPrefix(l, "package ") {
@@ -331,11 +335,15 @@ func writeReplayDir(repo, hdir string, cc *CheckCfg, entry string, models [][]by
 			}
 		}
 	}
-	symData, _ := os.ReadFile("/verif/engine/zzsym/zzsym.go")
+	symData, _ := os.ReadFile(zzsymSource())
 	os.WriteFile(filepath.Join(rdir, "zzsym.go"), symData, 0o644)
 	overlay[filepath.Join(repo, "internal/zzsym/zzsym.go")] = filepath.Join(rdir, "zzsym.go")
-	for i, m := range models {
-		os.WriteFile(filepath.Join(rdir, fmt.Sprintf("model_%d.json", i)), m, 0o644)
+	for name, m := range models {
+		os.WriteFile(filepath.Join(rdir, name), m, 0o644)
+	}
+	var disp strings.Builder
+	for _, en := range entries {
+		fmt.Fprintf(&disp, "\t\t%q: %s,\n", shortName(en), shortName(en))
 	}
 	test := fmt.Sprintf(`package %s
 
@@ -344,20 +352,29 @@ import (
 	"os"
 	"path/filepath"
 	"sort"
+	"strings"
 	"testing"
 
 	zzsym "%s"
 )
 
 func TestZZReplay(t *testing.T) {
+	funcs := map[string]func(){
+%s	}
 	dir := os.Getenv("ZZSYM_DIR")
 	files, _ := filepath.Glob(filepath.Join(dir, "model_*.json"))
 	sort.Strings(files)
 	for _, f := range files {
+		base := strings.TrimPrefix(filepath.Base(f), "model_")
+		name := base[:strings.Index(base, "__")]
+		h := funcs[name]
+		if h == nil {
+			t.Fatalf("no harness %%s", name)
+		}
 		if err := zzsym.Load(f); err != nil {
 			t.Fatal(err)
 		}
-		out := zzsym.Run(%s)
+		out := zzsym.Run(h)
 		fmt.Printf("ZZ-MODEL %%s\n", filepath.Base(f))
 		fmt.Printf("ZZ-OUTCOME %%s\n", out)
 		for _, m := range zzsym.Failures {
@@ -372,7 +389,7 @@ func TestZZReplay(t *testing.T) {
 		fmt.Printf("ZZ-END\n")
 	}
 }
-`, pkgName, symPkg, fn)
+`, pkgName, symPkg, disp.String())
 	testPath := filepath.Join(rdir, "zz_replay_test.go")
 	os.WriteFile(testPath, []byte(test), 0o644)
 	overlay[filepath.Join(repo, rel, "zz_replay_test.go")] = testPath
@@ -382,11 +399,22 @@ func TestZZReplay(t *testing.T) {
 	if cc.TestTags != "" {
 		tags = "-tags " + cc.TestTags + " "
 	}
+	if mf, err := prepareModfile(repo, hdir, cc, rdir); err == nil && mf != "" {
+		tags += mf + " "
+	}
 	run := fmt.Sprintf("#!/bin/sh\n# replays the solver model(s) in this directory against the real code\nexport GOFLAGS=-mod=mod GOPROXY=off GOSUMDB=off\ncd %s && ZZSYM_DIR=%s go test -vet=off -count=1 %s-overlay %s/overlay.json -run 'TestZZReplay$' -v ./%s\n",
 		repo, rdir, tags, rdir, rel)
 	os.WriteFile(filepath.Join(rdir, "run.sh"), []byte(run), 0o755)
-	_ = pkgPath
 	return filepath.Join(rdir, "run.sh"), nil
+}
+
+func zzsymSource() string {
+	exe, _ := os.Executable()
+	p := filepath.Join(filepath.Dir(exe), "zzsym", "zzsym.go")
+	if _, err := os.Stat(p); err == nil {
+		return p
+	}
+	return "/verif/engine/zzsym/zzsym.go"
 }
 
 func runReplay(script string) (string, error) {
@@ -428,10 +456,27 @@ func parseNative(out string) []nativeRun {
 	return runs
 }
 
+func hasEnvInputs(m map[string]uint64) bool {
+	for k := range m {
+		if strings.HasPrefix(k, "env.") {
+			return true
+		}
+	}
+	return false
+}
+
 func nativeReplay(repo, hdir string, cc *CheckCfg, entry string, v *violation, rdir string, thorough bool) (bool, string) {
-	script, err := writeReplayDir(repo, hdir, cc, entry, [][]byte{modelJSON(v.Model, thorough)}, rdir)
+	models := map[string][]byte{"model_" + shortName(entry) + "__0.json": modelJSON(v.Model, thorough)}
+	script, err := writeReplayDir(repo, hdir, cc, []string{entry}, models, rdir)
 	if err != nil {
 		return false, err.Error()
+	}
+	if hasEnvInputs(v.Model) {
+		// thread-modular counterexample: the interference values cannot be injected into a native
+		// single-threaded run; the schedule is written out instead.
+		note := "thread-modular counterexample (not natively replayable): " + v.Msg + "\nvalues observed from other threads are the env.interference#k entries of the model, in program order\n"
+		os.WriteFile(filepath.Join(rdir, "schedule.txt"), []byte(note), 0o644)
+		return true, note
 	}
 	out, _ := runReplay(script)
 	os.WriteFile(filepath.Join(rdir, "output.txt"), []byte(out), 0o644)
@@ -451,45 +496,105 @@ func nativeReplay(repo, hdir string, cc *CheckCfg, entry string, v *violation, r
 	return false, out
 }
 
-func nativeSelfTest(repo, hdir string, cc *CheckCfg, entry string, samples []*selfSample, thorough bool) (ok, bad int, msgs []string) {
-	tmp, err := os.MkdirTemp("", "symgo-self-")
-	if err != nil {
-		return 0, len(samples), []string{err.Error()}
+// nativeSelfTest runs the sampled path models of all entries of one package in a single go test.
+func nativeSelfTest(repo, hdir string, cc *CheckCfg, results []*entryResult, thorough bool) (ok, bad int, msgs []string) {
+	byPkg := map[string][]*entryResult{}
+	var pkgs []string
+	for _, r := range results {
+		keep := r.Samples[:0]
+		for _, s := range r.Samples {
+			if !hasEnvInputs(s.Model) {
+				keep = append(keep, s)
+			}
+		}
+		r.Samples = keep
+		if len(r.Samples) == 0 {
+			continue
+		}
+		pp, _ := pkgDirOf(r.Entry)
+		if byPkg[pp] == nil {
+			pkgs = append(pkgs, pp)
+		}
+		byPkg[pp] = append(byPkg[pp], r)
 	}
-	defer os.RemoveAll(tmp)
-	var models [][]byte
-	for _, s := range samples {
-		models = append(models, modelJSON(s.Model, thorough))
-	}
-	// model files sort lexicographically: use zero-padded names via writeReplayDir's index => ensure < 10 or pad
-	script, err := writeReplayDir(repo, hdir, cc, entry, nil, tmp)
-	if err != nil {
-		return 0, len(samples), []string{err.Error()}
-	}
-	for i, m := range models {
-		os.WriteFile(filepath.Join(tmp, fmt.Sprintf("model_%04d.json", i)), m, 0o644)
-	}
-	out, _ := runReplay(script)
-	runs := parseNative(out)
-	if len(runs) != len(samples) {
-		return 0, len(samples), []string{"native self-test run failed: " + lastLines(out, 8)}
-	}
-	for i, s := range samples {
-		r := runs[i]
-		good := r.Outcome == "ok" && len(r.Failures) == 0 &&
-			strings.Join(r.Reached, ";") == strings.Join(s.Reached, ";") &&
-			strings.Join(r.Observed, ";") == strings.Join(s.Observed, ";")
-		if good {
-			ok++
-		} else {
-			bad++
-			if len(msgs) < 3 {
-				msgs = append(msgs, fmt.Sprintf("sample %d: native outcome=%s failures=%v reach=%v obs=%v; symbolic reach=%v obs=%v model=%v",
-					i, r.Outcome, r.Failures, r.Reached, r.Observed, s.Reached, s.Observed, s.Model))
+	for _, pp := range pkgs {
+		tmp, err := os.MkdirTemp("", "symgo-self-")
+		if err != nil {
+			return ok, bad + 1, append(msgs, err.Error())
+		}
+		models := map[string][]byte{}
+		var entries []string
+		type ref struct {
+			r *entryResult
+			i int
+		}
+		var order []string
+		refs := map[string]ref{}
+		for _, r := range byPkg[pp] {
+			entries = append(entries, r.Entry)
+			for i, s := range r.Samples {
+				name := fmt.Sprintf("model_%s__%04d.json", shortName(r.Entry), i)
+				models[name] = modelJSON(s.Model, thorough)
+				refs[name] = ref{r, i}
+				order = append(order, name)
+			}
+		}
+		script, err := writeReplayDir(repo, hdir, cc, entries, models, tmp)
+		if err != nil {
+			os.RemoveAll(tmp)
+			return ok, bad + len(order), append(msgs, err.Error())
+		}
+		out, _ := runReplay(script)
+		os.RemoveAll(tmp)
+		runs := map[string]nativeRun{}
+		cur := ""
+		for _, nr := range parseNativeNamed(out, &cur) {
+			runs[nr.name] = nr.nativeRun
+		}
+		if len(runs) != len(order) {
+			return ok, bad + len(order), append(msgs, "native self-test run failed: "+lastLines(out, 8))
+		}
+		for _, name := range order {
+			rf := refs[name]
+			s := rf.r.Samples[rf.i]
+			r := runs[name]
+			good := r.Outcome == "ok" && len(r.Failures) == 0 &&
+				strings.Join(r.Reached, ";") == strings.Join(s.Reached, ";") &&
+				strings.Join(r.Observed, ";") == strings.Join(s.Observed, ";")
+			if good {
+				ok++
+			} else {
+				bad++
+				if len(msgs) < 3 {
+					msgs = append(msgs, fmt.Sprintf("%s: native outcome=%s failures=%v reach=%v obs=%v; symbolic reach=%v obs=%v model=%v",
+						name, r.Outcome, r.Failures, r.Reached, r.Observed, s.Reached, s.Observed, s.Model))
+				}
 			}
 		}
 	}
 	return
+}
+
+type namedRun struct {
+	name string
+	nativeRun
+}
+
+func parseNativeNamed(out string, _ *string) []namedRun {
+	var res []namedRun
+	var names []string
+	for _, l := range strings.Split(out, "\n") {
+		if strings.HasPrefix(l, "ZZ-MODEL ") {
+			names = append(names, strings.TrimSpace(strings.TrimPrefix(l, "ZZ-MODEL ")))
+		}
+	}
+	runs := parseNative(out)
+	for i, r := range runs {
+		if i < len(names) {
+			res = append(res, namedRun{names[i], r})
+		}
+	}
+	return res
 }
 
 // ---------------------------------------------------------------- evidence
